@@ -412,13 +412,13 @@ def _run_twin(sc, tw, res, count_probes):
                                            got, (target, method, indent["out"], indent["err"], depth[0],
                                                  esc_tag_in_style(tree))))
                         stats["writes"] += 1
+                        if target == "sec":
+                            res.probe("section_ansi" if tw.decorated else "section_plain")
                         if count_probes:
                             if "\n" in vis:
                                 res.probe("multiline_message")
                             if is_raw and is_line:
                                 res.probe("raw_line_method")
-                            if target == "sec":
-                                res.probe("section_ansi" if tw.decorated else "section_plain")
                             if "<fg=" in raw or "<bg=" in raw or "<options=" in raw:
                                 res.probe("inline_style")
                             if any(n[0] == "unknown" for n in tree):
